@@ -35,4 +35,24 @@ def entityChar (ent : Str) : Option Char :=
    (['&', 'q', 'u', 'o', 't', ';'], '"'), (['&', '#', 'x', '2', '7', ';'], '\''),
    (['&', '#', '0', '3', '9', ';'], '\'')].lookup ent
 
+/-- what `render` puts between the quotes of `repr(clean_url)`: the escaped URL with `repr`'s
+backslash escapes (single-quote variant) -/
+def urlCell (pr : Char → Bool) (url : Str) : Str := (pageEscape url).flatMap (reprChar pr '\'')
+
+/-- the outcomes for which the framework itself creates the error object (404, 405, 500 for a
+crashing handler or hook, 400/413 through `errors_map`; 400 for an undecodable path arises
+whatever the outcome) -/
+def Outcome.framework : Outcome → Bool
+  | .notFound | .notAllowed _ | .raises _ _ _ | .requestError _ _ _ => true
+  | .abort _ _ | .ok _ => false
+
+/-- status line and body text of every framework-generated error: a closed list, nothing in it
+comes from a request -/
+def frameworkPages : List (Str × Str) :=
+  [(statusLine 400, "Invalid path string. Expected UTF-8".toList),
+   (statusLine 404, "Not Found".toList),
+   (statusLine 405, "Method not allowed.".toList),
+   (statusLine 500, "Internal Server Error".toList)] ++
+  Gen.errorsMap.map fun (_, code, body) => (statusLine code, body)
+
 end Ombott.ErrorPage
